@@ -52,7 +52,7 @@ def ump_post(st0, st1, a, res):
         n0, n1 = st0.elems(r, ("opt", ("real",)), "none"), st1.elems(r, ("opt", ("real",)), "none")
         out.append((f"only slot `time` of {name} is written",
                     z3.ForAll([i], z3.Implies(i != t, z3.And(z3.Select(e1, i) == z3.Select(e0, i), z3.Select(n1, i) == z3.Select(n0, i))))))
-        out.append((f"series object {name} and its length unchanged", z3.And(series_ref(st1, m, name) == r, st1.length(r) == st0.length(r))))
+        out.append((f"series object {name} and its length unchanged", z3.And(series_ref(st1, m, name) == r, st1.length(r, ("real",)) == st0.length(r, ("real",)))))
     return out
 
 
